@@ -608,7 +608,8 @@ def fam_helpers(ctx):
         code.append("OK" if ok else "FAIL not consecutive slices")
         reqs.append(f"check boundaries bs={_ints(cuts)} nin={n}")
         inputs.append(("split_evenly_cuts", n, k))
-        if n <= 25:  # (ii) exact cut points of the model formula (float linspace first deviates at n=26)
+        if n <= 25 and k <= 40:  # (ii) exact cut points of the model formula (numpy's float linspace deviates from
+            # floor(len*i/k) first at (len=26,k=46), (122,14), and for k>=66 already at len=2)
             code.append(";".join("[" + ",".join(map(str, got[i]["pay"].tolist())) + "]" for i in range(k)))
             reqs.append(f"spec splitevenly len={n} n={k}")
             inputs.append(("split_evenly_exact", n, k))
